@@ -686,7 +686,9 @@ class Solver:
         # self.param_dic.update(update_dic)
         start_dic = {}
         for name, (func, args) in self.param_mapping.items():
-            new_args = {key: value for key, value in args.items()}
+            new_args = {
+                key: self.default_params.get(key, value) for key, value in args.items()
+            }
             for key, value in new_args.items():
                 if key in update_dic:
                     new_args[key] = update_dic[key]
